@@ -358,6 +358,26 @@ fn json_value_mutants(v: &Value) -> Vec<Value> {
     out
 }
 
+fn too_many_doc(idx: u64) -> (Value, String) {
+    if idx < 12 {
+        let n = 254 + (idx % 3) as usize;
+        let kind = idx / 3;
+        let doc = match kind {
+            0 => json!({"nodes": vec![0u16; n], "node_holes": [], "edge_property": "undirected", "edges": []}),
+            1 => json!({"nodes": vec![0u16; n - 1], "node_holes": [3], "edge_property": "undirected", "edges": []}),
+            2 => json!({"nodes": [0, 0], "node_holes": [], "edge_property": "undirected", "edges": vec![json!([0, 1, 1]); n]}),
+            _ => json!({"nodes": [0, 0], "node_holes": [], "edge_property": "undirected", "edges": (0..n).map(|i| if i == 5 { Value::Null } else { json!([0, 1, 1]) }).collect::<Vec<_>>()}),
+        };
+        (doc, format!("{} elements kind {}", n, kind))
+    } else {
+        let j = idx - 12;
+        let k = [4usize, 5, 6, 10][(j % 4) as usize];
+        let holes: Vec<usize> = if j / 4 == 0 { (0..k).collect() } else { (250..250 + k).collect() };
+        let first_live = if j / 4 == 0 { k } else { 0 };
+        (json!({"nodes": vec![0u16; 250], "node_holes": holes, "edge_property": "undirected", "edges": [[first_live, first_live + 249, 1]]}), format!("250 nodes and node_holes {:?}", holes))
+    }
+}
+
 /// structured generator: nodes length x node_holes sequence x edge list over in-range / out-of-range / hole endpoints
 struct Structured {
     max_holes: u32,
@@ -566,24 +586,17 @@ fn families(a: &Args) -> Vec<Family> {
     fams.push(Family {
         name: "faults-too-many-elements",
         thorough_only: false,
-        count: 12,
-        bounds: "documents with 254, 255, 256 nodes (with and without a hole) or 254, 255, 256 edges for u8-indexed Graph / StableGraph".into(),
+        count: 20,
+        bounds: "documents with 254, 255, 256 nodes (with and without a hole) or 254, 255, 256 edges, and documents with 250 nodes plus 4, 5, 6 or 10 node_holes (before / after the live nodes: 254, 255, 256, 260 slots), for u8-indexed Graph / StableGraph".into(),
         run: Box::new(|idx, ctx| {
-            let n = 254 + (idx % 3) as usize;
-            let kind = idx / 3;
             ctx.nontrivial = true;
-            let doc = match kind {
-                0 => json!({"nodes": vec![0u16; n], "node_holes": [], "edge_property": "undirected", "edges": []}),
-                1 => json!({"nodes": vec![0u16; n - 1], "node_holes": [3], "edge_property": "undirected", "edges": []}),
-                2 => json!({"nodes": [0, 0], "node_holes": [], "edge_property": "undirected", "edges": vec![json!([0, 1, 1]); n]}),
-                _ => json!({"nodes": [0, 0], "node_holes": [], "edge_property": "undirected", "edges": (0..n).map(|i| if i == 5 { Value::Null } else { json!([0, 1, 1]) }).collect::<Vec<_>>()}),
-            };
+            let (doc, what) = too_many_doc(idx);
             let text = doc.to_string();
             for tg in [Target::StableUndirU8, Target::GraphUndirU8] {
-                feed(ctx, tg, Some(&text), None, 1, &|| format!("target {:?} document with {} elements kind {}", tg, n, kind));
+                feed(ctx, tg, Some(&text), None, 1, &|| format!("target {:?} document with {}", tg, what));
             }
         }),
-        describe: Box::new(|idx| json!({"too many elements": {"count": 254 + idx % 3, "kind": idx / 3}})),
+        describe: Box::new(|idx| json!({"too many elements": too_many_doc(idx).1})),
     });
     fams
 }
